@@ -11,6 +11,7 @@ kernel-checked witness.
 import MetricsVerif.Proofs.Recency
 import MetricsVerif.Proofs.GenRace
 import MetricsVerif.Proofs.PromIdle
+import MetricsVerif.Proofs.IdleRace
 import MetricsVerif.Generated.SourceFacts
 import MetricsVerif.Proofs.SrcShapes
 
@@ -727,5 +728,123 @@ example :
     lookup (PromIdle.prun parts (PromIdle.init cfg) (h ++ [.render, .upd .histogram ['a'] (.record 1), .render])).dists
       (parts ['a']) = some (1, 1) := by
   decide
+
+/-! ## an update racing the idle deletion (`Model/IdleRace.lean`)
+
+The clause "anything updated since the previous observation is kept with its full value", for updater threads racing
+the observer at the granularity of the yield points.  `lost` counts the updates that can never reach the output any
+more: updates of a storage cell not yet shown when the cell is deleted, and updates written to orphaned storage. -/
+
+/-- the configuration of the witnesses: timeout 10, one update before the first render (at time 0), the race takes
+    place at time 11; one updater making one update, one render -/
+def raceCfg (fresh : Bool) : IdleRace.Cfg :=
+  { timeout := some 10, covered := true, tick := 0, adv := 11, pre := 1, upds := [(fresh, 1)], renders := 1 }
+
+/-- **FINDING, kernel-evaluated (replayed on the real exporter under the deterministic scheduler: `idle-race witness
+    W1`).**  The full-strength clause is FALSE of the code, even when every update goes through a freshly obtained
+    handle: the observer reads the generation (grant 1), a complete update — look-up, value write, generation bump —
+    follows (grants 0 0 0), then the observer finds the generation it holds unchanged since an observation made more
+    than the timeout ago and `Registry::delete_*` removes the storage without looking at its generation again
+    (grants 1 1).  The update is lost: nothing is registered, and no later render shows it. -/
+theorem idle_race_loses_update :
+    let s := IdleRace.run (IdleRace.init (raceCfg true)) [1, 0, 0, 0, 1, 1]
+    s.lost = 1 ∧ s.dirtyDrops = 1 ∧ s.orphanWrites = 0 ∧ s.reg = none ∧ s.obs.shown = [none]
+    ∧ (s.upds.map (·.pc)) = [IdleRace.UPc.done]
+    ∧ (IdleRace.observeQuiet s).obs.shown = [none, none] := by decide
+
+/-- the negation of the full-strength statement, as a statement about all configurations and schedules -/
+theorem idle_race_no_update_lost_false :
+    ¬ (∀ (c : IdleRace.Cfg) (sched : List Nat), (∀ p ∈ c.upds, p.1 = true) →
+        (IdleRace.run (IdleRace.init c) sched).lost = 0) := by
+  intro h
+  have := h (raceCfg true) [1, 0, 0, 0, 1, 1] (by decide)
+  revert this
+  decide
+
+/-- **FINDING, kernel-evaluated (replayed: `idle-race witness W2`).**  No race is needed when a handle is kept across
+    an idle drop: the observation deletes the idle metric (grants 1 1 1), the update through the handle obtained
+    before goes to the orphaned storage (grants 0 0) and is never shown.  No update step lies inside the read→delete
+    window of this schedule — which is why `idle_race_lossless_partial` is about freshly obtained handles. -/
+theorem stale_handle_loses_update :
+    let s := IdleRace.run (IdleRace.init (raceCfg false)) [1, 1, 1, 0, 0]
+    s.lost = 1 ∧ s.dirtyDrops = 0 ∧ s.orphanWrites = 1 ∧ s.reg = none
+    ∧ IdleRace.windowFree (IdleRace.init (raceCfg false)) [1, 1, 1, 0, 0] = true
+    ∧ (IdleRace.observeQuiet s).obs.shown = [none, none] := by decide
+
+/-- **idle_race_lossless_partial.**  For any timeout, mask, clock advances, number of updater threads, updates and
+    renders, and EVERY schedule in which no update step lies inside a read→delete window of the observer (no updater
+    is granted while the observer holds a generation on which `should_store` deletes or is on its way into
+    `Registry::delete_*`, and no updater is between its value write and its generation bump when such a window
+    opens): if every update goes through a freshly obtained handle, no update is lost — every deletion removes a
+    storage cell all of whose updates have been shown, and no update is written to orphaned storage. -/
+theorem idle_race_lossless_partial (c : IdleRace.Cfg) (hfresh : ∀ p ∈ c.upds, p.1 = true) (sched : List Nat)
+    (hw : IdleRace.windowFree (IdleRace.init c) sched = true) :
+    (IdleRace.run (IdleRace.init c) sched).lost = 0
+    ∧ (IdleRace.run (IdleRace.init c) sched).dirtyDrops = 0
+    ∧ (IdleRace.run (IdleRace.init c) sched).orphanWrites = 0 := by
+  have h := IdleRace.run_lossless sched (IdleRace.init c) (IdleRace.init_inv c) (IdleRace.init_K c)
+    (IdleRace.init_allFresh c hfresh) hw
+  exact ⟨h.lost, h.dirty, h.orphan⟩
+
+/-- **idle_race_never_due_lossless.**  Without a timeout, or for a kind outside the mask, no window ever opens: with
+    freshly obtained handles no update is lost in ANY schedule. -/
+theorem idle_race_never_due_lossless (c : IdleRace.Cfg) (hfresh : ∀ p ∈ c.upds, p.1 = true)
+    (hn : c.timeout = none ∨ c.covered = false) (sched : List Nat) :
+    (IdleRace.run (IdleRace.init c) sched).lost = 0 :=
+  (idle_race_lossless_partial c hfresh sched
+    (IdleRace.windowFree_of_neverDue sched _ (IdleRace.init_inv c) hn)).1
+
+/-- **never_dropped_while_fresh_quiescent.**  In every state reachable under ANY schedule (kept handles included): a
+    quiescent observation — no updater between its value write and its generation bump, nobody else moving while the
+    observer runs — of a registered metric that has updates not yet shown keeps the metric and shows its full value;
+    afterwards all its updates are shown, and nothing was lost. -/
+theorem never_dropped_while_fresh_quiescent (c : IdleRace.Cfg) (sched : List Nat) (cell : Nat) :
+    let s := IdleRace.run (IdleRace.init c) sched
+    s.obs.pc = .idle → s.obs.todo ≠ 0 → s.reg = some cell → IdleRace.anyMid s = false → 0 < s.unshown cell →
+    (IdleRace.stepObs (IdleRace.stepObs s)).obs.pc = .idle
+    ∧ (IdleRace.stepObs (IdleRace.stepObs s)).reg = some cell
+    ∧ (IdleRace.stepObs (IdleRace.stepObs s)).obs.shown = s.obs.shown ++ [some (s.val cell)]
+    ∧ (IdleRace.stepObs (IdleRace.stepObs s)).unshown cell = 0
+    ∧ (IdleRace.stepObs (IdleRace.stepObs s)).lost = s.lost := by
+  intro s hidle htodo hreg hmid hfresh
+  have h := IdleRace.quiet_keeps_fresh s (IdleRace.run_inv sched _ (IdleRace.init_inv c)) hidle htodo cell hreg hmid hfresh
+  exact ⟨h.1, h.2.1, h.2.2.1, h.2.2.2.1, h.2.2.2.2.lost⟩
+
+/-- **idle_race_invariant.**  In EVERY interleaving: whenever `Recency`'s entry carries the current generation of the
+    registered storage and no updater is between its value write and its bump on it, every update written to that
+    storage has been shown (so a deletion decided on that entry loses nothing); the stamp of the entry never exceeds
+    the generation; and an observer on its way into `Registry::delete_*` has decided on an entry whose stamp is the
+    generation it read. -/
+theorem idle_race_invariant (c : IdleRace.Cfg) (sched : List Nat) :
+    IdleRace.Inv (IdleRace.run (IdleRace.init c) sched) :=
+  IdleRace.run_inv sched _ (IdleRace.init_inv c)
+
+/-- non-vacuity of `idle_race_lossless_partial`: the same threads as in the witness, the update made before the
+    observer reads the generation — kept and shown with its full value 2; and made after the deletion — the dropped
+    series (last shown 1) is followed by a fresh one starting from zero (value 1) -/
+example :
+    IdleRace.windowFree (IdleRace.init (raceCfg true)) [0, 0, 0, 1, 1] = true
+    ∧ (IdleRace.run (IdleRace.init (raceCfg true)) [0, 0, 0, 1, 1]).obs.shown = [some 2]
+    ∧ IdleRace.windowFree (IdleRace.init (raceCfg true)) [1, 1, 1, 0, 0, 0, 0] = true
+    ∧ (IdleRace.run (IdleRace.init (raceCfg true)) [1, 1, 1, 0, 0, 0, 0]).obs.shown = [none]
+    ∧ (IdleRace.observeQuiet (IdleRace.run (IdleRace.init (raceCfg true)) [1, 1, 1, 0, 0, 0, 0])).obs.shown = [none, some 1]
+    ∧ IdleRace.windowFree (IdleRace.init (raceCfg true)) [1, 0, 0, 0, 1, 1] = false := by decide
+
+/-- SOURCE FACT (regenerated from the repository on every run): `should_store` compares the stored generation with
+    the generation its CALLER read earlier, and then deletes through a closure that is given the key only;
+    `Registry::delete_counter/gauge/histogram` take the key only and do not look at a generation; the exporter's
+    loops read the generation, then ask `should_store_*`, then read the value.  This is the read→delete window of
+    `Model/IdleRace.lean`; a change that re-checks the generation under the shard lock changes these facts. -/
+theorem src_idle_delete_unconditional :
+    Generated.recency_should_store_same_gen = "*last_gen==gen"
+    ∧ Generated.recency_should_store_delete_cond = "(now-*last_update)>idle_timeout&&delete_op(registry,key)"
+    ∧ Generated.recency_should_store_calls =
+        ["key,gen,registry,MetricKind::Counter,|registry,key|{registry.delete_counter(key)}",
+         "key,gen,registry,MetricKind::Gauge,|registry,key|{registry.delete_gauge(key)}",
+         "key,gen,registry,MetricKind::Histogram,|registry,key|{registry.delete_histogram(key)}"]
+    ∧ Generated.registry_delete_sigs =
+        ["&self,key:&K->bool:unconditional", "&self,key:&K->bool:unconditional", "&self,key:&K->bool:unconditional"]
+    ∧ Generated.prom_counter_store_order = ["generation", "should_store", "value"]
+    ∧ Generated.prom_gauge_store_order = ["generation", "should_store", "value"] := by decide
 
 end MetricsVerif.C12
